@@ -17,7 +17,9 @@ interleaved is the sequential session handler (`Task.body_seq` below).
 * `concurrent_senders_consecutive_partial` – sender tasks send new messages, or messages of any kind (also
   PossDupFlag=Y / SequenceReset with their own number) whose text is outside latin-1 (`Task.wf`); for every
   schedule in which no `_process_resend` has rewound
-  the outbound counter (`everRewound = false`, a decidable predicate of the schedule prefix): the new-message
+  the outbound counter (`everRewound = false`, a decidable predicate of the schedule prefix) and no acceptor
+  Logon reply was lost for want of a transport / a free journal slot (`everWaived = false`, likewise
+  decidable; since fix a9dbd9f that failure is re-raised only after `disconnect()`): the new-message
   frames carry strictly increasing numbers in wire order, none below the initial counter; nothing but new
   messages is written; every frame is in the journal under its number; no DuplicateSeqNoError is swallowed
   and none escapes a sender / the watchdog; `stored + 1 = next_num_out` at EVERY point of the schedule;
@@ -136,13 +138,17 @@ structure Holds (exact : Bool) (ts : List Task) (c0 : Conn) (s : SState) : Prop 
     c0.sess.nextOut + (newWrites s.effects).length + (if exact then 0 else (lost s.effects : Int))
 
 /-- **C14, partial**: every schedule (any length) of any number of sender / tick / reader tasks in which
-no resend rewind window was opened. -/
+no resend rewind window was opened and no acceptor Logon reply was lost for want of a transport or of a
+free journal slot (`everWaived`: since fix a9dbd9f such a failure is re-raised only after `disconnect()`, so
+at the prefixes in between a number is consumed that no effect accounts for yet). -/
 theorem concurrent_senders_consecutive_partial (sr : Msg → Bool) (c0 : Conn) (ts : List Task) (paused : Bool)
     (sched : List Letter) (hJ : J c0) (hT : ∀ t ∈ ts, t.wf = true)
-    (hW : (run sr c0 ts paused sched).everRewound = false) :
+    (hW : (run sr c0 ts paused sched).everRewound = false)
+    (hV : (run sr c0 ts paused sched).everWaived = false) :
     Holds false ts c0 (run sr c0 ts paused sched) := by
-  have ho : (run sr c0 ts paused sched).opened = 0 := by
-    simp only [SState.everRewound, decide_eq_false_iff_not] at hW; omega
+  have ho : (run sr c0 ts paused sched).blocked = 0 := by
+    simp only [SState.everRewound, SState.everWaived, decide_eq_false_iff_not] at hW hV
+    unfold SState.blocked; omega
   have inv := exec_inv sched (init_inv sr c0 ts paused hJ hT) ho
   have seg := inv.seg
   refine ⟨seg.asc.numbers, ?_, seg.fresh, ⟨?_, ?_⟩, seg.inv.counter, ?_⟩
@@ -170,6 +176,7 @@ back-pressure (`Witness.schedPlain`): the hypotheses hold, all tasks finish, fou
 7, 8, 9, 10 in wire order -/
 example : J Witness.c0 ∧ (∀ t ∈ Witness.tsPlain, t.wf = true) ∧
     (run Witness.all Witness.c0 Witness.tsPlain false Witness.schedPlain).everRewound = false ∧
+    (run Witness.all Witness.c0 Witness.tsPlain false Witness.schedPlain).everWaived = false ∧
     (run Witness.all Witness.c0 Witness.tsPlain false Witness.schedPlain).allDone = true ∧
     lost (run Witness.all Witness.c0 Witness.tsPlain false Witness.schedPlain).effects = 0 ∧
     (newWrites (run Witness.all Witness.c0 Witness.tsPlain false Witness.schedPlain).effects).map seqOf
@@ -189,6 +196,7 @@ the counter (hence the stored one) is the highest number sent plus one -/
 theorem concurrent_senders_gapless_partial (sr : Msg → Bool) (c0 : Conn) (ts : List Task) (paused : Bool)
     (sched : List Letter) (hJ : J c0) (hT : ∀ t ∈ ts, t.wf = true)
     (hW : (run sr c0 ts paused sched).everRewound = false)
+    (hV : (run sr c0 ts paused sched).everWaived = false)
     (hL : lost (run sr c0 ts paused sched).effects = 0) :
     Holds true ts c0 (run sr c0 ts paused sched) ∧
       numbered c0.sess.nextOut (newWrites (run sr c0 ts paused sched).effects) ∧
@@ -197,9 +205,10 @@ theorem concurrent_senders_gapless_partial (sr : Msg → Bool) (c0 : Conn) (ts :
         (run sr c0 ts paused sched).conn.journal.outSeq = (run sr c0 ts paused sched).conn.sess.nextOut - 1 := by
   generalize hs : run sr c0 ts paused sched = s at *
   have h : Holds false ts c0 s := by
-    rw [← hs] at hW ⊢; exact concurrent_senders_consecutive_partial sr c0 ts paused sched hJ hT hW
-  have ho : s.opened = 0 := by
-    simp only [SState.everRewound, decide_eq_false_iff_not] at hW; omega
+    rw [← hs] at hW hV ⊢; exact concurrent_senders_consecutive_partial sr c0 ts paused sched hJ hT hW hV
+  have ho : s.blocked = 0 := by
+    simp only [SState.everRewound, SState.everWaived, decide_eq_false_iff_not] at hW hV
+    unfold SState.blocked; omega
   have seg : Seg true c0 s.conn s.effects := by
     rw [← hs] at ho ⊢; exact (exec_inv sched (init_inv sr c0 ts paused hJ hT) ho).seg
   have hc : s.conn.sess.nextOut = c0.sess.nextOut + (newWrites s.effects).length := by
